@@ -308,19 +308,21 @@ def sortNodes (ns : List Node) : List Node := ns.foldr insertNodeSorted []
 
 /-! ### the mod-2 rule, as a specification -/
 
-/-- how many times `p` occurs as an end point of the line strings `ls` (first and last coordinate
-of every member with at least two distinct consecutive coordinates; a closed one counts twice) -/
+/-- how many times `p` occurs as an end point of the line string `l` (first and last coordinate,
+if it has at least two distinct consecutive coordinates; a closed one counts twice) -/
+def endpointCount1 (p : Pt) (l : List Pt) : Nat :=
+  match dedup l with
+  | [] => 0
+  | [_] => 0
+  | first :: rest =>
+    (if first = p then 1 else 0) + (if (first :: rest).getLast?.getD first = p then 1 else 0)
+
+/-- how many times `p` occurs as an end point of the line strings `ls` -/
 def endpointCount (p : Pt) : List (List Pt) → Nat
   | [] => 0
-  | l :: ls =>
-    (match dedup l with
-     | [] => 0
-     | [_] => 0
-     | first :: rest =>
-       (if first = p then 1 else 0) + (if (first :: rest).getLast?.getD first = p then 1 else 0))
-    + endpointCount p ls
+  | l :: ls => endpointCount1 p l + endpointCount p ls
 
-/-- the members of `ls` that collapse to the single point `p` ("invalid linestring as point") -/
+/-- `l` collapses to the single point `p` ("Treating invalid linestring as point") -/
 def collapsesTo (p : Pt) (l : List Pt) : Bool := dedup l == [p]
 
 end Geo.GG
